@@ -119,6 +119,10 @@ def judge(st: Stats, hist: History, specs: List[Dict[str, Any]], schedule: Seque
                    "fractions(event row, lot row, amount)": [(e, l, str(a)) for e, l, a in fr]}, cap=2)
 
 
+HEAVY_PHASES = ("single methods", "three-year schedules", "1 deviation", "2 deviations", "two-year schedules across New Year, one transaction in another UTC offset",
+                "amount scales", "one transaction in another UTC offset", "two-year schedules")
+
+
 def plan(tier: str) -> List[Dict[str, Any]]:
     singles = single_schedules()
     two = two_year_schedules()
@@ -154,8 +158,10 @@ def main(tier: str, budget_s: Optional[float] = None) -> int:
     budget = budget_s or (240 if tier == "quick" else 3300)
     deadline = t0 + budget
     phases = plan(tier)
-    total, info, complete = run_phases([ph for ph in phases if ph.get("symbols") != "fe"], generic_worker, FIRST, SYMBOLS, EXTRA, deadline, __name__)
-    t2, i2, c2 = run_phases([ph for ph in phases if ph.get("symbols") == "fe"], generic_worker, FE_FIRST, FE_SYMBOLS, EXTRA, deadline, __name__)
+    # cheap phases first, the big trees last: if the budget runs out, it cuts into depth, not into whole dimensions
+    total, info, complete = run_phases([ph for ph in phases if ph.get("symbols") == "fe"], generic_worker, FE_FIRST, FE_SYMBOLS, EXTRA, deadline, __name__)
+    main_phases = sorted([ph for ph in phases if ph.get("symbols") != "fe"], key=lambda ph: (ph["name"] in HEAVY_PHASES, ))
+    t2, i2, c2 = run_phases(main_phases, generic_worker, FIRST, SYMBOLS, EXTRA, deadline, __name__)
     total.merge(t2)
     info += i2
     complete = complete and c2
